@@ -1,6 +1,8 @@
 import SimbodyProofs.C07_lemmas
 import Mathlib.Tactic.FieldSimp
 import Mathlib.Algebra.Field.Basic
+import Mathlib.Tactic.NormNum
+import Mathlib.Algebra.Order.Field.Rat
 
 /-!
 # C07 — constraint errors form a derivative hierarchy with adjoint forces
@@ -145,15 +147,13 @@ theorem pverr_derivative_general (c : Par K) (X1 X2 : Xf K) (V1 V2 : SV K) (h1 :
 theorem pverr_is_derivative_on_manifold (c : Par K) (X1 X2 : Xf K) (V1 V2 : SV K) (h1 : IsOrtho X1.R)
     (h0 : perr c X1 X2 = V3.zero) :
     epsV (perr c.const (jetX X1 V1) (jetX X2 V2)) = pverr c X1 X2 V1 V2 := by
-  rw [pverr_derivative_general c X1 X2 V1 V2 h1, h0]
-  to_scalars; refine ⟨?_, ?_, ?_⟩ <;> ring
+  rw [pverr_derivative_general c X1 X2 V1 V2 h1, h0, V3.add_cross_zero]
 
 /-- whenever body 1 does not rotate in A (e.g. it *is* the ancestor) the hierarchy is exact at violated states too -/
 theorem pverr_is_derivative_of_w1_zero (c : Par K) (X1 X2 : Xf K) (V1 V2 : SV K) (h1 : IsOrtho X1.R)
     (hw : V1.w = V3.zero) :
     epsV (perr c.const (jetX X1 V1) (jetX X2 V2)) = pverr c X1 X2 V1 V2 := by
-  rw [pverr_derivative_general c X1 X2 V1 V2 h1, hw]
-  to_scalars; refine ⟨?_, ?_, ?_⟩ <;> ring
+  rw [pverr_derivative_general c X1 X2 V1 V2 h1, hw, V3.add_zero_cross]
 
 /-- the exact relation coded at the next level: `d/dt pverr = paerr − ω₁ × pverr` -/
 theorem paerr_derivative_general (c : Par K) (X1 X2 : Xf K) (V1 V2 A1 A2 : SV K) (h1 : IsOrtho X1.R) :
@@ -166,13 +166,31 @@ theorem paerr_derivative_general (c : Par K) (X1 X2 : Xf K) (V1 V2 A1 A2 : SV K)
 theorem paerr_is_derivative_on_manifold (c : Par K) (X1 X2 : Xf K) (V1 V2 A1 A2 : SV K) (h1 : IsOrtho X1.R)
     (h0 : pverr c X1 X2 V1 V2 = V3.zero) :
     epsV (pverr c.const (jetX X1 V1) (jetX X2 V2) (jetSV V1 A1) (jetSV V2 A2)) = paerr c X1 X2 V1 V2 A1 A2 := by
-  rw [paerr_derivative_general c X1 X2 V1 V2 A1 A2 h1, h0]
-  to_scalars; refine ⟨?_, ?_, ?_⟩ <;> ring
+  rw [paerr_derivative_general c X1 X2 V1 V2 A1 A2 h1, h0, V3.sub_cross_zero]
 
 theorem force_adjoint (c : Par K) (X1 X2 : Xf K) (V1 V2 : SV K) (lam : V3 K) (h1 : IsOrtho X1.R) :
     V3.dot lam (pverr c X1 X2 V1 V2) = SV.dot (forces c X1 X2 lam).1 V1 + SV.dot (forces c X1 X2 lam).2 V2 := by
   simp only [pverr, forces, stationVel, stationForce, stationForceA, invXf, mulVec_tmulVec h1]
   to_scalars; ring
+
+/-- negative witness (finding F-C07-1): body 1 turning about z with rate 1, both stations at the body origins, body 2
+displaced by (1,0,0) and at rest: the position error `(1,0,0)` has time derivative `0`, but the coded velocity error
+is `(0,-1,0)` — the hierarchy fails off the manifold exactly by `ω₁ × perr` -/
+theorem violated_witness :
+    let I : M33 ℚ := ⟨⟨1, 0, 0⟩, ⟨0, 1, 0⟩, ⟨0, 0, 1⟩⟩
+    let c : Par ℚ := ⟨⟨0, 0, 0⟩, ⟨0, 0, 0⟩⟩
+    let X1 : Xf ℚ := ⟨I, ⟨0, 0, 0⟩⟩; let X2 : Xf ℚ := ⟨I, ⟨1, 0, 0⟩⟩
+    let V1 : SV ℚ := ⟨⟨0, 0, 1⟩, ⟨0, 0, 0⟩⟩; let V2 : SV ℚ := ⟨⟨0, 0, 0⟩, ⟨0, 0, 0⟩⟩
+    epsV (perr c.const (jetX X1 V1) (jetX X2 V2)) = ⟨0, 0, 0⟩ ∧ pverr c X1 X2 V1 V2 = ⟨0, -1, 0⟩ := by
+  simp only [perr, pverr, Par.const]; to_scalars; norm_num
+
+/-- non-vacuity of the on-manifold hypotheses: coincident stations, identity poses -/
+example (V1 V2 : SV ℚ) :
+    epsV (perr (Par.const ⟨⟨1, 2, 3⟩, ⟨1, 2, 3⟩⟩) (jetX ⟨⟨⟨1, 0, 0⟩, ⟨0, 1, 0⟩, ⟨0, 0, 1⟩⟩, ⟨0, 0, 0⟩⟩ V1)
+        (jetX ⟨⟨⟨1, 0, 0⟩, ⟨0, 1, 0⟩, ⟨0, 0, 1⟩⟩, ⟨0, 0, 0⟩⟩ V2))
+      = pverr ⟨⟨1, 2, 3⟩, ⟨1, 2, 3⟩⟩ ⟨⟨⟨1, 0, 0⟩, ⟨0, 1, 0⟩, ⟨0, 0, 1⟩⟩, ⟨0, 0, 0⟩⟩
+          ⟨⟨⟨1, 0, 0⟩, ⟨0, 1, 0⟩, ⟨0, 0, 1⟩⟩, ⟨0, 0, 0⟩⟩ V1 V2 :=
+  pverr_is_derivative_on_manifold _ _ _ V1 V2 isOrtho_id (by simp only [perr]; to_scalars; norm_num)
 end Ball
 
 /-! ## Weld -/
@@ -197,8 +215,7 @@ theorem pverr_is_derivative_on_manifold (c : Par K) (XB XF : Xf K) (VB VF : SV K
     (h0 : (perr c XB XF).2 = V3.zero) :
     (epsV (perr c.const (jetX XB VB) (jetX XF VF)).1, epsV (perr c.const (jetX XB VB) (jetX XF VF)).2)
       = pverr c XB XF VB VF := by
-  rw [pverr_rot_is_derivative, pverr_pos_derivative_general c XB XF VB VF hB, h0]
-  to_scalars; refine ⟨⟨?_, ?_, ?_⟩, ⟨?_, ?_, ?_⟩⟩ <;> ring
+  rw [pverr_rot_is_derivative, pverr_pos_derivative_general c XB XF VB VF hB, h0, V3.add_cross_zero]
 
 theorem paerr_rot_is_derivative (c : Par K) (XB XF : Xf K) (VB VF AB AF : SV K) :
     epsV (pverr c.const (jetX XB VB) (jetX XF VF) (jetSV VB AB) (jetSV VF AF)).1
@@ -218,8 +235,7 @@ theorem paerr_is_derivative_on_manifold (c : Par K) (XB XF : Xf K) (VB VF AB AF 
     (epsV (pverr c.const (jetX XB VB) (jetX XF VF) (jetSV VB AB) (jetSV VF AF)).1,
      epsV (pverr c.const (jetX XB VB) (jetX XF VF) (jetSV VB AB) (jetSV VF AF)).2)
       = paerr c XB XF VB VF AB AF := by
-  rw [paerr_rot_is_derivative, paerr_pos_derivative_general c XB XF VB VF AB AF hB, h0]
-  to_scalars; refine ⟨⟨?_, ?_, ?_⟩, ⟨?_, ?_, ?_⟩⟩ <;> ring
+  rw [paerr_rot_is_derivative, paerr_pos_derivative_general c XB XF VB VF AB AF hB, h0, V3.sub_cross_zero]
 
 theorem force_adjoint (c : Par K) (XB XF : Xf K) (VB VF : SV K) (lt lf : V3 K) (hB : IsOrtho XB.R) :
     V3.dot lt (pverr c XB XF VB VF).1 + V3.dot lf (pverr c XB XF VB VF).2
@@ -351,7 +367,10 @@ theorem dotL_jet (g gd x xd : List K) (hl : g.length = gd.length) (hx : x.length
     (dotL (List.zipWith (fun a b => (⟨a, b⟩ : Jet1 K)) g gd) (List.zipWith (fun a b => (⟨a, b⟩ : Jet1 K)) x xd)).eps
       = dotL g xd + dotL gd x := by
   induction g generalizing gd x xd with
-  | nil => cases gd <;> simp [dotL]
+  | nil =>
+    cases gd with
+    | nil => simp [dotL]
+    | cons b bs => simp at hl
   | cons a as ih =>
     cases gd with
     | nil => simp at hl
@@ -403,6 +422,7 @@ end SpeedCoupler
 `multiplyByPVA` evaluates `err(J u)` (minus its bias) and `multiplyByPVATranspose` evaluates `~J F(λ) + f(λ)`.
 Given the per-constraint adjoint (`force_adjoint` above) and the adjointness of the system Jacobian operators
 (property C04), the two operators are transposes of each other. -/
+omit [CommRing K] in
 theorem GT_adjoint_of_parts {Lam E F V U Fu : Type} (pairE : Lam → E → K) (pairV : F → V → K) (pairU : Fu → U → K)
     (errLin : V → E) (forces : Lam → F) (J : U → V) (Jt : F → Fu)
     (hc : ∀ l v, pairE l (errLin v) = pairV (forces l) v) (hJ : ∀ f u, pairV f (J u) = pairU (Jt f) u) :
@@ -426,7 +446,7 @@ def invJ (x : Jet1 K) : Jet1 K := ⟨x.val⁻¹, -x.eps / (x.val * x.val)⟩
 theorem pverr_is_derivative (s : K → K) (c : Par K) (XF XB : Xf K) (VF VB : SV K)
     (hs : s (V3.dot (pvec c XF XB) (pvec c XF XB)) * s (V3.dot (pvec c XF XB) (pvec c XF XB))
             = V3.dot (pvec c XF XB) (pvec c XF XB))
-    (hne : s (V3.dot (pvec c XF XB) (pvec c XF XB)) ≠ 0) :
+    (hne : s (V3.dot (pvec c XF XB) (pvec c XF XB)) ≠ 0) (h2 : (2 : K) ≠ 0) :
     (perr (sqrtJ s) c.const (jetX XF VF) (jetX XB VB)).eps = pverr s (·⁻¹) c XF XB VF VB := by
   simp only [perr, pverr, Cz, sqrtJ, Par.const, Jet1.sub_eps]
   have hv : (V3.dot (pvec (Par.const c) (jetX XF VF) (jetX XB VB)) (pvec (Par.const c) (jetX XF VF) (jetX XB VB))).val
@@ -445,6 +465,14 @@ theorem pverr_is_derivative (s : K → K) (c : Par K) (XF XB : Xf K) (VF VB : SV
   field_simp
   ring
 
+/-- non-vacuity: 3-4-5 triangle over ℚ, `sqrt := fun _ => 5` -/
+example (VF VB : SV ℚ) :
+    (perr (sqrtJ (fun _ => (5 : ℚ))) (Par.const ⟨⟨0, 0, 0⟩, ⟨3, 4, 0⟩, 1⟩)
+        (jetX ⟨⟨⟨1, 0, 0⟩, ⟨0, 1, 0⟩, ⟨0, 0, 1⟩⟩, ⟨0, 0, 0⟩⟩ VF) (jetX ⟨⟨⟨1, 0, 0⟩, ⟨0, 1, 0⟩, ⟨0, 0, 1⟩⟩, ⟨0, 0, 0⟩⟩ VB)).eps
+      = pverr (fun _ => (5 : ℚ)) (·⁻¹) ⟨⟨0, 0, 0⟩, ⟨3, 4, 0⟩, 1⟩ ⟨⟨⟨1, 0, 0⟩, ⟨0, 1, 0⟩, ⟨0, 0, 1⟩⟩, ⟨0, 0, 0⟩⟩
+          ⟨⟨⟨1, 0, 0⟩, ⟨0, 1, 0⟩, ⟨0, 0, 1⟩⟩, ⟨0, 0, 0⟩⟩ VF VB :=
+  pverr_is_derivative _ _ _ _ VF VB (by simp only [pvec]; to_scalars; norm_num) (by norm_num) (by norm_num)
+
 theorem force_adjoint (s inv : K → K) (c : Par K) (XF XB : Xf K) (VF VB : SV K) (lam : K) :
     lam * pverr s inv c XF XB VF VB
       = SV.dot (forces s inv c XF XB lam).1 VF + SV.dot (forces s inv c XF XB lam).2 VB := by
@@ -456,16 +484,16 @@ theorem force_adjoint (s inv : K → K) (c : Par K) (XF XB : Xf K) (VF VB : SV K
 theorem paerr_is_derivative (s : K → K) (c : Par K) (XF XB : Xf K) (VF VB AF AB : SV K)
     (hs : s (V3.dot (pvec c XF XB) (pvec c XF XB)) * s (V3.dot (pvec c XF XB) (pvec c XF XB))
             = V3.dot (pvec c XF XB) (pvec c XF XB))
-    (hne : s (V3.dot (pvec c XF XB) (pvec c XF XB)) ≠ 0) :
+    (hne : s (V3.dot (pvec c XF XB) (pvec c XF XB)) ≠ 0) (h2 : (2 : K) ≠ 0) :
     (pverr (sqrtJ s) invJ c.const (jetX XF VF) (jetX XB VB) (jetSV VF AF) (jetSV VB AB)).eps
       = paerr s (·⁻¹) c XF XB VF VB AF AB := by
   -- jets of p, pd
   have hpv : valV (pvec c.const (jetX XF VF) (jetX XB VB)) = pvec c XF XB := by
-    simp only [pvec, Par.const]; to_scalars; exact ⟨trivial, trivial, trivial⟩
+    simp only [pvec, Par.const]; to_scalars
   have hpe : epsV (pvec c.const (jetX XF VF) (jetX XB VB)) = pdvec c XF XB VF VB := by
     simp only [pvec, pdvec, Par.const]; to_scalars; refine ⟨?_, ?_, ?_⟩ <;> ring
   have hdv : valV (pdvec c.const (jetX XF VF) (jetX XB VB) (jetSV VF AF) (jetSV VB AB)) = pdvec c XF XB VF VB := by
-    simp only [pdvec, Par.const]; to_scalars; exact ⟨trivial, trivial, trivial⟩
+    simp only [pdvec, Par.const]; to_scalars
   have hde : epsV (pdvec c.const (jetX XF VF) (jetX XB VB) (jetSV VF AF) (jetSV VB AB))
       = (stationAccA VB AB (XB.R.mulVec c.pB)).sub (stationAccA VF AF (XF.R.mulVec c.pF)) := by
     simp only [pdvec, Par.const]; to_scalars; refine ⟨?_, ?_, ?_⟩ <;> ring
@@ -484,10 +512,7 @@ theorem paerr_is_derivative (s : K → K) (c : Par K) (XF XB : Xf K) (VF VB AF A
   simp only [V3.dot, V3.smul, V3.sub, sqrtJ, invJ, Jet1.add_val, Jet1.add_eps, Jet1.mul_val, Jet1.mul_eps] at hs hne ⊢
   generalize s (p0 * p0 + p1 * p1 + p2 * p2) = r at hs hne ⊢
   field_simp
-  ring_nf
-  -- remaining: polynomial identity modulo r² = p·p
-  have hr2 : r ^ 2 = p0 ^ 2 + p1 ^ 2 + p2 ^ 2 := by linear_combination hs
-  sorry
+  ring
 end Rod
 end field
 
